@@ -1,3 +1,25 @@
 import Mdsort.Proofs.World
+
+/-!
+# C05 - dry run (-d) and syntax check (-n) never change anything
+-/
+
 namespace Mdsort.Props
+open Mdsort Mdsort.Model
+
+/-- `-d` in maildir mode: whatever the configuration, the messages and the fault plan are, the run
+issues no mutating call (no create, write, rename, unlink, utimensat, mkdir, rmdir) and starts no
+process for an action. -/
+theorem C05_dry_no_mutation (env : PEnv) (orc : EvalOracles) (ok : Bool) (conf : List ConfBlock) (files : Files) (input : Bytes)
+    (w : World) (plan : Plan) (hd : env.dryrun = true) (hm : env.stdinMode = false) :
+    ∀ c ∈ Proofs.callsOf plan (mainP env orc ok conf files input) w, c.mutating = false ∧ c ≠ .fork :=
+  Proofs.dryrun_no_mutation env orc ok conf files input w plan hd hm
+
+/-- `-n`: the whole run is opening and closing the configuration file. -/
+theorem C05_syntax_nothing (env : PEnv) (orc : EvalOracles) (ok : Bool) (conf : List ConfBlock) (files : Files) (input : Bytes)
+    (w : World) (plan : Plan) (hn : env.syntaxOnly = true) :
+    Proofs.callsOf plan (mainP env orc ok conf files input) w = [.fopen env.confpath] ∨
+    ∃ h, Proofs.callsOf plan (mainP env orc ok conf files input) w = [.fopen env.confpath, .fclose h] :=
+  Proofs.syntax_only_calls env orc ok conf files input w plan hn
+
 end Mdsort.Props
